@@ -166,6 +166,11 @@ def c_history(ctx, case):
                      f"call {i} of a history on one {'cached ' if cached else ''}mapper{_fs(flags)}: "
                      f"{G.src(e)} -> missing {missing} extra {extra}; earlier calls: "
                      f"{[G.src(x) for x in exprs[:i]]}")
+        if type(got) is not set:
+            ctx.fail("C09.history", case, f"history:result-type:{type(got).__name__}",
+                     f"call {i} on one {'cached ' if cached else ''}mapper{_fs(flags)}: {G.src(e)} "
+                     f"came back as a {type(got).__name__}, earlier answers were sets (callers "
+                     f"update them in place: compile() does)")
         kept.append((got, set(want)))
         for j, (g0, w0) in enumerate(kept[:-1]):
             if g0 != w0:
@@ -173,6 +178,41 @@ def c_history(ctx, case):
                          f"result of call {j} changed after call {i} on the same mapper: now "
                          f"{[G.src(x) for x in g0]}, was {[G.src(x) for x in w0]}")
                 kept[j] = (g0, set(g0))
+
+
+@check("C09.scribble")
+def c_scribble(ctx, case):
+    """What the analysis returns is the CALLER's: the caller goes on to update it in place
+    (`deps |= ...`, `deps -= listed`, as compile() does) -- later answers of the same mapper
+    must not see that.  (A wrapper at the root is answered with the table entry itself, also by
+    the unchanged library: those answers are left alone.)"""
+    exprs, flags = case
+    m = mk(flags, False)
+    f = eff(flags)
+    junk = p.Variable("zz_scribbled_by_the_caller")
+    for i, e in enumerate(exprs):
+        ctx.case(None)
+        ctx.count("scribble_calls")
+        want = set(depmodel(e, f))
+        got = m(e)
+        if set(got) != want:
+            missing, extra = setdiff(set(got), want)
+            ctx.fail("C09.scribble", case, "scribble:later-answer-polluted",
+                     f"call {i} on one mapper{_fs(flags)} whose earlier answers the caller updated "
+                     f"in place: {G.src(e)} -> missing {missing} extra {extra}; earlier calls: "
+                     f"{[G.src(x) for x in exprs[:i]]}")
+            return
+        # (only answers that were COMBINED from two or more operands: a wrapper at the root, and a
+        #  node that passes its only operand's answer on -- not x, o.attr -- hand out the table
+        #  entry itself in the unchanged library too)
+        combining = (isinstance(e, (p.Sum, p.Product, p.Min, p.Max, p.BitwiseOr, p.BitwiseXor,
+                                    p.BitwiseAnd, p.LogicalOr, p.LogicalAnd))
+                     and len(e.children) >= 2) \
+            or isinstance(e, (p.Quotient, p.FloorDiv, p.Remainder, p.Power, p.LeftShift,
+                              p.RightShift, p.Comparison, p.If))
+        if combining and isinstance(got, set):
+            got.add(junk)
+            got.discard(next(iter(want), junk))
 
 
 @check("C09.needs")
@@ -358,6 +398,7 @@ def workload(ctx):
                 ctx.sample("history-on-one-mapper", [G.src(x) for x in exprs])
             for cached in (False, True):
                 ctx.run("C09.history", (exprs, flags, cached))
+            ctx.run("C09.scribble", (exprs + exprs[:2], flags))
         # restricted evaluation
         tg = G.TypedGen(rng, hist=ctx.hist)
         for i in range(ctx.per_shard(ctx.pick(1500, 30000))):
@@ -408,6 +449,7 @@ def workload(ctx):
     ctx.floor("big_expressions", 3)
     ctx.floor("dep_calls", 72 * 2 * 500)
     ctx.floor("history_calls", 3000)
+    ctx.floor("scribble_calls", 1500)
     ctx.floor("restricted_evals", 2000)
     ctx.floor("node_counts", 2000)
     ctx.floor("flop_counts", 2000)
